@@ -1,6 +1,6 @@
 """Property -> rules table."""
 
-from .rules import inplace, maps, exponent, decomp, threads, evo, tebd, record, iso, optflow, registries, dmrg, bp, linalg, symmetry, gating, circuit, capguard
+from .rules import inplace, maps, exponent, decomp, threads, evo, tebd, record, iso, optflow, registries, dmrg, bp, linalg, symmetry, gating, circuit, capguard, order
 import functools
 
 COMMON_ASSUMPTIONS = [
@@ -40,7 +40,7 @@ def _c13_family(f):
 
 REGISTRY = {
     "C13": {
-        "rules": [
+        "rules": [order.rule_requested_order, 
             P(optflow.rule_option_delivery, opts=("normalized",), modules=("quimb.tensor",), rule="opt-deliver[normalized]", floor=15,
               description="from every function that accepts `normalized`, each call whose resolved callee (all candidates) accepts "
                           "`normalized` receives a value derived from the caller's own (or an explicit literal): an omitted "
@@ -117,7 +117,7 @@ REGISTRY = {
         "assumptions": COMMON_ASSUMPTIONS,
     },
     "C17": {
-        "rules": [linalg.rule_backend_use_or_reject, linalg.rule_dense_table],
+        "rules": [linalg.rule_backend_use_or_reject, linalg.rule_dense_table, linalg.rule_perm_provenance],
         "explanation": (
             "static (registry evaluation + use-or-reject): decides that every registered eigen / singular-value backend accepts "
             "every setting its dispatcher builds and reads each selection-bearing option it accepts, that the dispatcher builds "
